@@ -214,7 +214,8 @@ def run(rep, ctx):   # noqa: F811  (final definition)
     from ..unsafe_audit import run_U
     run_U(rep, g)
     from ..liveness import run_liveness
-    run_liveness(rep, ctx.fx, ['T1', 'T2', 'T3', 'T4', 'P-overflow', 'P-div', 'P-unwrap', 'N', 'U0'])
+    if not getattr(ctx, 'variant', None):
+        run_liveness(rep, ctx.fx, ['T1', 'T2', 'T3', 'T4', 'P-overflow', 'P-div', 'P-unwrap', 'N', 'U0'])
 
 
 def run_N(rep, g, reach, scope_name='read-reachable', floor=90):
